@@ -4,6 +4,7 @@ package main
 // marshalling (C02).
 
 import (
+	"hash/crc32"
 	"fmt"
 	"go/token"
 	"go/types"
@@ -640,6 +641,24 @@ func ruleXZWriterFormat(c *Ctx, r *Report, prefix string) {
 				}
 			}
 		}
+		// append style: every successful return hands back crcAppend(data, 0): the CRC of everything before it, stored last
+		crcAppended := false
+		if !ok {
+			n, good := 0, 0
+			for _, b := range fn.Blocks {
+				ret, isR := b.Instrs[len(b.Instrs)-1].(*ssa.Return)
+				if !isR || len(ret.Results) != 2 || !isNilConst(ret.Results[1]) {
+					continue
+				}
+				n++
+				if _, isApp := crcAppendedResult(c, ret.Results[0]); isApp {
+					good++
+				}
+			}
+			if n > 0 && good == n {
+				ok, crcAppended = true, true
+			}
+		}
 		r.Check(ok, rule, "blockheader-crc:"+FnName(fn), c.Pos(fn.Pos()), "block header: CRC32 of data[:len-4] stored at data[len-4:]", "blockHeader.MarshalBinary does not store the CRC32 of data[:len-4] at data[len-4:]")
 		// size byte = len/4 - 1
 		okSize := false
@@ -649,6 +668,10 @@ func ruleXZWriterFormat(c *Ctx, r *Report, prefix string) {
 					if ia, isIA := st.Addr.(*ssa.IndexAddr); isIA {
 						if k, isK := constInt(ia.Index); isK && k == 0 {
 							if roleBinOp(token.SUB, roleBinOp(token.QUO, roleLenOf(roleAny()), roleConst(4)), roleConst(1))(st.Val) {
+								okSize = true
+							}
+							// measured before the four CRC bytes are appended: (len + 4)/4 - 1
+							if crcAppended && roleBinOp(token.SUB, roleBinOp(token.QUO, roleBinOp(token.ADD, roleLenOf(roleAny()), roleConst(4)), roleConst(4)), roleConst(1))(st.Val) {
 								okSize = true
 							}
 						}
@@ -841,7 +864,27 @@ func ruleXZWriterFormat(c *Ctx, r *Report, prefix string) {
 				okOrder = false
 			}
 		}
-		r.Check(okOrder && nOK > 0, rule, "index-crc:"+FnName(fn), c.Pos(fn.Pos()),
+		// the index assembled in memory: the only write hands crcAppend(padAppend(p), 0) to the sink
+		inMemory, inMemoryPad := false, false
+		if !(okOrder && nOK > 0) {
+			var writes []*ssa.Call
+			for _, b := range theCtx.GB(fn) {
+				for _, ins := range b.Instrs {
+					if call, isC := ins.(*ssa.Call); isC && call.Call.IsInvoke() && call.Call.Method.Name() == "Write" {
+						writes = append(writes, call)
+					}
+				}
+			}
+			if len(writes) == 1 && writes[0].Call.Value == ssa.Value(fn.Params[0]) {
+				if buf, isApp := crcAppendedResult(c, writes[0].Call.Args[0]); isApp {
+					inMemory = true
+					if pc, isC := stripConvNoLook(buf).(*ssa.Call); isC && pc.Call.StaticCallee() != nil && padAppender(c, pc.Call.StaticCallee()) {
+						inMemoryPad = true
+					}
+				}
+			}
+		}
+		r.Check((okOrder && nOK > 0) || inMemory, rule, "index-crc:"+FnName(fn), c.Pos(fn.Pos()),
 			"indicator, count, records and padding go through the CRC32 multi-writer; the CRC is taken afterwards and written to the plain sink",
 			fmt.Sprintf("writeIndex: on a successful path %d writes go through the CRC multi-writer (want >= 3: indicator, count, padding, plus one per record) and %d to the plain sink (want 1: the CRC), in the order multi-writer* . Sum32 . plain", mwWrites, wWrites))
 		// padding = padLen(n)
@@ -856,14 +899,14 @@ func ruleXZWriterFormat(c *Ctx, r *Report, prefix string) {
 				}
 			}
 		}
-		r.Check(okPad, rule, "index-padding:"+FnName(fn), c.Pos(fn.Pos()), "index padding = padLen(bytes so far)", "writeIndex does not pad the index with padLen(n) zero bytes")
+		r.Check(okPad || inMemoryPad, rule, "index-padding:"+FnName(fn), c.Pos(fn.Pos()), "index padding = padLen(bytes so far)", "writeIndex does not pad the index with padLen(n) zero bytes")
 	}
 	if fn := c.Func("", "record.MarshalBinary"); fn != nil {
 		fUp, fUn := c.Field("", "record.unpaddedSize"), c.Field("", "record.uncompressedSize")
 		var seq []string
 		for _, b := range theCtx.GB(fn) {
 			for _, ins := range b.Instrs {
-				if call, isC := callTo(ins, putUvarint); isC {
+				if call, isC := ins.(*ssa.Call); isC && call.Call.StaticCallee() != nil && varintEncoders[call.Call.StaticCallee()] && len(call.Call.Args) == 2 {
 					switch {
 					case roleFieldLoad(fUp)(call.Call.Args[1]):
 						seq = append(seq, "unpadded")
@@ -1028,4 +1071,124 @@ func lenBeforeAppend4(n, root ssa.Value) bool {
 	}
 	at, ok := al.Type().(*types.Pointer).Elem().Underlying().(*types.Array)
 	return ok && at.Len() == 4 && sl.Low == nil && sl.High == nil
+}
+
+// crcAppender: fn(p []byte[, start int]) []byte appends the little-endian CRC-32 of p[start:] to p
+// (decided by evaluating it on small byte strings). Returns the index of the start parameter (-1: none).
+func crcAppender(c *Ctx, fn *ssa.Function) (startIdx int, ok bool) {
+	if fn == nil || fn.Blocks == nil || fn.Signature.Recv() != nil || fn.Signature.Results().Len() != 1 || len(fn.Params) < 1 || len(fn.Params) > 2 {
+		return 0, false
+	}
+	if _, isSl := fn.Params[0].Type().Underlying().(*types.Slice); !isSl {
+		return 0, false
+	}
+	if _, isSl := fn.Signature.Results().At(0).Type().Underlying().(*types.Slice); !isSl {
+		return 0, false
+	}
+	startIdx = -1
+	if len(fn.Params) == 2 {
+		if !isIntegerType(fn.Params[1].Type()) {
+			return 0, false
+		}
+		startIdx = 1
+	}
+	uses := false
+	for _, b := range fn.Blocks {
+		for _, ins := range b.Instrs {
+			if call, isC := ins.(*ssa.Call); isC && strings.HasPrefix(stdCalleeName(call), "hash/crc32.") {
+				uses = true
+			}
+		}
+	}
+	if !uses {
+		return 0, false
+	}
+	for _, tc := range []struct {
+		p     []byte
+		start int
+	}{{[]byte{1, 2, 3}, 0}, {[]byte{9, 1, 2, 3, 250}, 1}, {[]byte{}, 0}, {[]byte{0, 0, 0, 0, 7}, 0}} {
+		if startIdx < 0 && tc.start != 0 {
+			continue
+		}
+		in := NewInterp(c)
+		args := []aval{byteSlice(tc.p)}
+		if startIdx >= 0 {
+			args = append(args, aInt(int64(tc.start), fn.Params[1].Type()))
+		}
+		res := in.Call(fn, args)
+		if !res.OK || res.Panicked || len(res.Rets) != 1 {
+			return 0, false
+		}
+		got, okB := sliceBytes(res.Rets[0])
+		if !okB || len(got) != len(tc.p)+4 {
+			return 0, false
+		}
+		sum := crc32.ChecksumIEEE(tc.p[tc.start:])
+		for i := range tc.p {
+			if got[i] != int64(tc.p[i]) {
+				return 0, false
+			}
+		}
+		for i := 0; i < 4; i++ {
+			if got[len(tc.p)+i] != int64(sum>>(8*uint(i))&0xff) {
+				return 0, false
+			}
+		}
+	}
+	return startIdx, true
+}
+
+// padAppender: fn(p []byte) []byte appends zero bytes up to the next multiple of four (by evaluation).
+func padAppender(c *Ctx, fn *ssa.Function) bool {
+	if fn == nil || fn.Blocks == nil || fn.Signature.Recv() != nil || fn.Signature.Results().Len() != 1 || len(fn.Params) != 1 {
+		return false
+	}
+	if _, isSl := fn.Params[0].Type().Underlying().(*types.Slice); !isSl {
+		return false
+	}
+	for n := 0; n < 9; n++ {
+		p := make([]byte, n)
+		for i := range p {
+			p[i] = byte(i + 1)
+		}
+		in := NewInterp(c)
+		res := in.Call(fn, []aval{byteSlice(p)})
+		if !res.OK || res.Panicked || len(res.Rets) != 1 {
+			return false
+		}
+		got, okB := sliceBytes(res.Rets[0])
+		want := (n + 3) / 4 * 4
+		if !okB || len(got) != want {
+			return false
+		}
+		for i := range got {
+			if (i < n && got[i] != int64(p[i])) || (i >= n && got[i] != 0) {
+				return false
+			}
+		}
+	}
+	return true
+}
+
+// crcAppendedResult: v is the result of a call to a crcAppender over the whole buffer (start 0);
+// returns the buffer argument.
+func crcAppendedResult(c *Ctx, v ssa.Value) (ssa.Value, bool) {
+	call, ok := stripConvNoLook(v).(*ssa.Call)
+	if !ok {
+		return nil, false
+	}
+	h := call.Call.StaticCallee()
+	if h == nil || !c.IsNew(h) {
+		return nil, false
+	}
+	si, isApp := crcAppender(c, h)
+	if !isApp {
+		return nil, false
+	}
+	if si >= 0 {
+		if k, isK := constInt(call.Call.Args[si]); !isK || k != 0 {
+			return nil, false
+		}
+	}
+	return call.Call.Args[0], true
 }
